@@ -84,11 +84,38 @@ def param_underflow_rule(res, fx, rule, floor=1, file_re=r'.*', only_reach=None)
                 continue
             seen.add((c.get('l'), a, b))
             n += 1
-            ok = False
-            for (cn, t) in G.atoms_at(f, c):
-                for (l_, op_, r_) in A.rel_forms(cn, t):
-                    if l_['k'] == 'DeclRefExpr' and r_['k'] == 'DeclRefExpr' and l_.get('d') == b and r_.get('d') == a and op_ in ('<', '<=', '=='):
-                        ok = True
+
+            def established(h, node, db, da):
+                """at `node` of h the variable db is known not to exceed da: a dominating comparison, or a clamp `db = min(db, da)` that precedes on every path"""
+                from msa import pair as P
+                for (cn, t) in G.atoms_at(h, node):
+                    for (l_, op_, r_) in A.rel_forms(cn, t):
+                        if l_['k'] == 'DeclRefExpr' and r_['k'] == 'DeclRefExpr' and l_.get('d') == db and r_.get('d') == da and op_ in ('<', '<=', '=='):
+                            return True
+                clamps = []
+                for w in h.walk():
+                    rhs = w['ch'][1] if (w['k'] == 'BinaryOperator' and w.get('op') == '=' and A.strip_casts(w['ch'][0]).get('d') == db) else (w['ch'][0] if (w['k'] == 'VarDecl' and w.get('d') == db and w['ch']) else None)
+                    mm = A.min_max(rhs) if rhs is not None else None
+                    if mm is not None and mm[0] == 'min' and any(x.get('d') == da for x in mm[1]):
+                        clamps.append(w)
+                return bool(clamps) and P.must_precede(h, clamps, node)
+            ok = established(f, c, b, a)
+            if not ok:
+                # an extracted block: the relation is established where the helper is called (every call site, with plain variables as arguments)
+                from msa import ip as IP
+                cs = IP.call_sites_of(fx, f, r'.')
+                ia = [k_ for k_, q_ in enumerate(f.params) if q_.get('d') == a]
+                ib = [k_ for k_, q_ in enumerate(f.params) if q_.get('d') == b]
+                if cs and ia and ib:
+                    ok = True
+                    for (h, cc) in cs:
+                        args = cc.args()
+                        if cc['k'] == 'CXXOperatorCallExpr' and len(args) == len(f.params) + 1:
+                            args = args[1:]
+                        xa = A.strip_casts(args[ia[0]]) if ia[0] < len(args) else None
+                        xb = A.strip_casts(args[ib[0]]) if ib[0] < len(args) else None
+                        if xa is None or xb is None or xa['k'] != 'DeclRefExpr' or xb['k'] != 'DeclRefExpr' or not established(h, cc, xb.get('d'), xa.get('d')):
+                            ok = False
             res.ob(rule, f.where(c), '%s: `%s` is computed only where %s <= %s' % (f.q.split('::')[-1], c.text(40), ups[b].get('n'), ups[a].get('n')), ok, function=f.q,
                    key='%s|%s|underflow:%s-%s' % (rule, f.q, ups[a].get('n'), ups[b].get('n')),
                    message='%s computes `%s` from its two unsigned parameters without having compared them: when %s > %s the result wraps to about 4 billion — a scan length, copy size or loop bound '
